@@ -180,6 +180,9 @@ type Env struct {
 	SvcOf   map[string]string      // backend -> service
 	SD      map[string]protoreflect.ServiceDescriptor
 	Files   *protoregistry.Files // for the local service
+	// FS: the multi-file back-ends of the file-structure dimension
+	// (structure.go), by provider name
+	FS map[string]*fsBackend
 }
 
 var svcOf = map[string]string{"b1": "A", "b2": "A", "b4": "A", "b3": "B", "b3x": "B", "bc": "C", "local": "A", "bd": "D", "bd2": "D", "bt": "T", "bh": "D1only", "bp": "P"}
@@ -194,7 +197,17 @@ func tagOf(prov string) string {
 }
 
 func NewEnv() (*Env, error) {
-	e := &Env{Back: map[string]*be.Backend{}, SvcOf: svcOf, SD: map[string]protoreflect.ServiceDescriptor{}}
+	e := &Env{Back: map[string]*be.Backend{}, SvcOf: svcOf, SD: map[string]protoreflect.ServiceDescriptor{}, FS: map[string]*fsBackend{}}
+	for k := range fsShapes {
+		for _, p := range fsShapes[k].providers() {
+			b, err := startFS(p, &fsShapes[k])
+			if err != nil {
+				e.Close()
+				return nil, err
+			}
+			e.FS[p] = b
+		}
+	}
 	var fds []protoreflect.FileDescriptor
 	for _, f := range files() {
 		fd, err := f.Build()
@@ -283,6 +296,9 @@ func (e *Env) conn(name string) *grpc.ClientConn {
 	case "b3x":
 		return e.Second
 	}
+	if b := e.FS[name]; b != nil {
+		return b.CC
+	}
 	return e.Back[name].CC
 }
 
@@ -294,6 +310,9 @@ func (e *Env) Close() {
 		e.Second.Close()
 	}
 	for _, b := range e.Back {
+		b.Close()
+	}
+	for _, b := range e.FS {
 		b.Close()
 	}
 }
